@@ -107,7 +107,7 @@ namespace Yarel.Spec.Quirks
       would emit and reports "Too much code to jump over." / "Loop body too large." /
       "Too much code in block." above 65535.
 * F10 more than 255 interpolation parts wrap.  (S): compile error
-      "Cannot have more than 255 interpolation parts.".
+      "Cannot have more than 255 parts in an interpolated string.".
 * F11 returning / unwinding through `try` truncates the stack without closing captured variables.
       (S): variables are cells, closures keep them.
 * F12 the catch block pops the enclosing handler:
